@@ -126,7 +126,8 @@ Unwatch(w) ==
 \* in 'set-reset' mode goes back to False when its __set__ completes.
 SetFrame(p, v, ret, reset) ==
   [k |-> "set", p |-> p, old |-> val[p], new |-> v, pend |-> SortByPrec(RegSeq(p), Precs),
-   ret |-> ret, reset |-> reset, dl |-> <<>>]
+   ret |-> ret, reset |-> reset, dl |-> <<>>,
+   hasw |-> RegSeq(p) # <<>>]       \* Parameter.__set__ returns early when the parameter has no watcher at all
 
 Set(p, v) ==
   /\ "set" \in Acts /\ CanOp /\ nops' = nops + 1
@@ -254,7 +255,7 @@ StepSet ==
                         evs |-> <<[name |-> f.p, old |-> f.old, new |-> f.new, type |-> EvType(w, trig)]>>,
                         obs |-> Obs(val), kf |-> {}])
                 /\ UNCHANGED <<val, trig, evq, wq, W, emode, nops, exc, nfaults>>
-     ELSE IF bw \/ evq = <<>>
+     ELSE IF bw \/ evq = <<>> \/ ~f.hasw
           THEN /\ stack' = Pop /\ val' = AfterSet(f)
                /\ (IF f.ret THEN Done("set", AfterSet(f)) ELSE NoVis)
                /\ UNCHANGED <<bw, trig, evq, wq, W, emode, nops, exc, nfaults>>
